@@ -378,6 +378,12 @@ class C12(F.PropCheck):
                 tags.append('toggles'); lv = act
                 for j in range(rng.choice([10, 11, 20, 21, 8])):
                     evs.append(('IN', [inp['gpio'], lv], b'')); lv = 1 - lv; evs.append(('ADV', [rng.choice([200000, 200000, 350000, 1000000, 2200000])], b''))
+            elif a < 0.88:
+                # the connection drops and comes back: re-registration in the middle of the history
+                tags.append('reconnect')
+                evs += [('DISCCB', [], b''), ('ADV', [rng.choice([100000, 2500000])], b''), ('CONNCB', [], b''), ('ADV', [200000], b'')]
+                if rng.random() < 0.8: rr[0] += 1; evs.append(('SRV', [k['CALL_REGISTER_RESULT'], rr[0]], reg_result())); evs.append(('ADV', [300000], b''))
+                call, p, t = self.gen_srv(rng, b, rr); tags.append(t); rr[0] += 1; evs.append(('SRV', [call, rr[0]], p)); evs.append(('ADV', [300000], b''))
             else:
                 call, p, t = self.gen_srv(rng, b, rr); tags.append(t); rr[0] += 1; evs.append(('SRV', [call, rr[0]], p)); evs.append(('ADV', [300000], b''))
                 f = req_fields(p) if call == k['CALL_CALCFG_REQUEST'] else None
@@ -491,6 +497,7 @@ class C12(F.PropCheck):
                 i, s_ = ints[0], ints[1]
                 if 0 <= i < nin and s_ in (0, 1) and lvl[i] != s_: lvl[i] = s_; since[i] = t; changes[i].append(t); dirs[i].append(s_)
             elif kd == 'CONNCB': srpc = True
+            elif kd == 'DISCCB': reg = False
             elif kd == 'RSPOKE' and ints[0] in cal: cal[ints[0]] = [ints[1], ints[2], ints[7]]
             f = None; call = None
             if kd == 'SRV':
